@@ -204,4 +204,4 @@ impl Iterator for Iter<'_> {
 
 #[cfg(kani)]
 #[path = "/verif/kani/termarena.rs"]
-mod verif_kani;
+pub(crate) mod verif_kani;
